@@ -20,7 +20,9 @@ RULE = ("documents are built by independent serialisers from generated timestamp
         "exact Fraction arithmetic on the spelling. Exhaustive legs: MicroDVD frames 0..2.16M "
         "at 25 fps and 0..500k at 7 declared rates, all SS:FF pairs, offsets k/1000 s for "
         "k<1e5. Non-trivial: a stamp with hours != 0, a fraction that is not three digits, "
-        "frames, an offset metric, begin+dur, a shift != 0, an fps header, or an empty cue.")
+        "frames, an offset metric, begin+dur, a shift != 0, an fps header, or an empty cue. "
+        'In a quarter of the cases the reader object has already read another document of the '
+        'format (with another language / frame rate). ')
 ASSUMPTIONS = [
     "TTML frame rate is 30 (ttp:frameRate is never set in generated documents)",
     "for second fractions longer than six digits either neighbouring microsecond is accepted; "
